@@ -52,7 +52,7 @@ pub fn decode(tape: &[u16]) -> Case {
     let use_doc = t.chance(2, 3);
     // occasionally a long run of text after the generated prefix (withheld text would show)
     let long_tail = if t.chance(1, 8) { 3000 } else { 0 };
-    let (input, d) = if t.chance(1, 6) {
+    let (input, d) = if t.chance(1, 4) {
         // raw-text / escaped-script soup: abandoned end-tag candidates and escape look-aheads
         const F: &[&str] = &["<script>", "<!--", "-->", "</scrip-", "</scripx", "<script", "<script>", "</script", "</scrip", "x", " y ", "-", "--", "<", "</", "<!", "<title>", "</titl-", "<style>", "</sty e", "<textarea>", "</textarea-", "</", "</a-", "<scr ipt", "<!-", "</scriptx"];
         let n = t.range(1, 8);
